@@ -326,6 +326,76 @@ theorem step_conserved (c : Cfg) (s s' : St) (op : Op) (h : step c s op = some s
     · rename_i hg; guards hg
       cases h; close_cons
     · simp at h
+  | manualLeft d t =>
+    simp only [step] at h
+    split at h
+    · rename_i hg; guards hg
+      cases h; close_cons
+    · simp at h
+  | confirmManual d t =>
+    simp only [step, finishEject] at h
+    split at h
+    · rename_i hg; guards hg
+      cases h; close_cons
+    · simp at h
+  | manualTimeout d =>
+    simp only [step] at h
+    split at h
+    · rename_i hg; guards hg
+      cases h; close_cons
+    · simp at h
+  | manualReturn d =>
+    simp only [step] at h
+    split at h
+    · split at h
+      · rename_i hg; guards hg
+        cases h; close_cons
+      · simp at h
+    · simp at h
+  | extConfirm d t =>
+    simp only [step, finishEject] at h
+    split at h
+    · rename_i hg; guards hg
+      split at h
+      · cases h; close_cons
+      · cases h; close_cons
+    · simp at h
+  | pfArrivedStale t src =>
+    simp only [step] at h
+    split at h
+    · cases h; close_cons
+    · simp at h
+  | pfArrivedFrom t src =>
+    simp only [step] at h
+    split at h
+    · cases h; close_cons
+    · simp at h
+  | skipStart d t =>
+    simp only [step] at h
+    split at h
+    · cases h; close_cons
+    · simp at h
+  | skipConfirm d t =>
+    simp only [step] at h
+    split at h
+    · split at h
+      · rename_i hg; guards hg
+        cases h; close_cons
+      · simp at h
+    · simp at h
+  | skipFail d t =>
+    simp only [step] at h
+    split at h
+    · cases h; close_cons
+    · simp at h
+  | skipConfirmIdle d t =>
+    simp only [step] at h
+    split at h
+    · split at h
+      · rename_i hg; guards hg
+        cases h; close_cons
+      · simp at h
+    · simp at h
 
 theorem run_conserved (c : Cfg) (ops : List Op) (s s' : St) (h : run c s ops = some s') (hc : Conserved c s) :
     Conserved c s' := by
@@ -594,6 +664,76 @@ theorem step_bounded (c : Cfg) (s s' : St) (op : Op) (h : step c s op = some s')
       have hne : i ≠ c.missing := by rintro rfl; simp_all
       simp only [St.b, St.c, getD_bump, hne, false_and, if_false] at hBi ⊢
       exact hBi
+    · simp at h
+  | manualLeft d t =>
+    simp only [step] at h
+    split at h
+    · rename_i hg; guards hg
+      cases h; close_bnd d
+    · simp at h
+  | confirmManual d t =>
+    simp only [step, finishEject] at h
+    split at h
+    · rename_i hg; guards hg
+      cases h; close_bnd d
+    · simp at h
+  | manualTimeout d =>
+    simp only [step] at h
+    split at h
+    · rename_i hg; guards hg
+      cases h; close_bnd d
+    · simp at h
+  | manualReturn d =>
+    simp only [step] at h
+    split at h
+    · split at h
+      · rename_i hg; guards hg
+        cases h; close_bnd d
+      · simp at h
+    · simp at h
+  | extConfirm d t =>
+    simp only [step, finishEject] at h
+    split at h
+    · rename_i hg; guards hg
+      split at h
+      · cases h; close_bnd d
+      · cases h; close_bnd d
+    · simp at h
+  | pfArrivedStale t src =>
+    simp only [step] at h
+    split at h
+    · cases h; exact Bounded.of_eq c s _ hB rfl rfl
+    · simp at h
+  | pfArrivedFrom t src =>
+    simp only [step] at h
+    split at h
+    · cases h; exact Bounded.of_eq c s _ hB rfl rfl
+    · simp at h
+  | skipStart d t =>
+    simp only [step] at h
+    split at h
+    · cases h; exact Bounded.of_eq c s _ hB rfl rfl
+    · simp at h
+  | skipConfirm d t =>
+    simp only [step] at h
+    split at h
+    · split at h
+      · rename_i hg; guards hg
+        cases h; close_bnd t
+      · simp at h
+    · simp at h
+  | skipFail d t =>
+    simp only [step] at h
+    split at h
+    · cases h; exact Bounded.of_eq c s _ hB rfl rfl
+    · simp at h
+  | skipConfirmIdle d t =>
+    simp only [step] at h
+    split at h
+    · split at h
+      · rename_i hg; guards hg
+        cases h; close_bnd t
+      · simp at h
     · simp at h
 
 theorem run_bounded (c : Cfg) (ops : List Op) (s s' : St) (h : run c s ops = some s') (hc : Conserved c s)
